@@ -345,7 +345,7 @@ func genTr(t *rapid.T) trCase {
 	c.Kind = rapid.SampledFrom([]string{"seq", "bag", "ali", "bag", "ali"}).Draw(t, "kind")
 	c.Code = rapid.SampledFrom(codeNames).Draw(t, "code")
 	c.Frame = rapid.IntRange(0, 2).Draw(t, "frame")
-	if c.Kind == "bag" && rapid.IntRange(0, 2).Draw(t, "three") == 0 {
+	if c.Kind != "seq" && rapid.IntRange(0, 2).Draw(t, "three") == 0 {
 		c.Frame = -1
 	}
 	n := 1
@@ -410,11 +410,29 @@ func checkTr(c trCase) (o pbt.Outcome, err error) {
 		e = al.Translate(c.Frame, codeID(c.Code))
 		if e == nil {
 			got = gen.Snapshot(al)
-			if len(want) > 0 && al.Length() != len(want[0].Seq) {
-				return o, fmt.Errorf("alignment length after translation is %d, rows have %d residues", al.Length(), len(want[0].Seq))
+			l := c.Ali.Length()
+			switch {
+			case c.Frame >= 0:
+				if al.Length() != (l-c.Frame)/3 {
+					return o, fmt.Errorf("Length() = %d after translating an alignment of length %d in frame %d, expected floor((L-frame)/3) = %d", al.Length(), l, c.Frame, (l-c.Frame)/3)
+				}
+				if al.NbSequences() != len(c.Ali.Rows) {
+					return o, fmt.Errorf("number of sequences changed: %d -> %d", len(c.Ali.Rows), al.NbSequences())
+				}
+			case l%3 == 2:
+				// the three frames give rows of one common length floor(L/3): a rectangular alignment
+				if al.Length() != l/3 {
+					return o, fmt.Errorf("Length() = %d after translating an alignment of length %d in the three frames; every row has floor(L/3) = %d residues", al.Length(), l, l/3)
+				}
+				o.Class("three-frames-alignment-rectangular")
+			default:
+				// rows of different lengths (upstream's test.sh expects that output): what
+				// Length() means there is not stated
+				o.Ambiguous++
+				o.Class("three-frames-alignment-ragged")
 			}
-			if al.NbSequences() != len(c.Ali.Rows) {
-				return o, fmt.Errorf("number of sequences changed: %d -> %d", len(c.Ali.Rows), al.NbSequences())
+			if c.Frame < 0 && al.NbSequences() != 3*len(c.Ali.Rows) {
+				return o, fmt.Errorf("three frames: %d rows for %d input rows", al.NbSequences(), len(c.Ali.Rows))
 			}
 		}
 	}
@@ -758,9 +776,9 @@ func TestCLI(t *testing.T) {
 			c.Tr.Frame = rapid.IntRange(0, 2).Draw(t, "frame")
 			if c.Mode == "unaligned" {
 				c.Tr.Kind = "bag"
-				if rapid.Bool().Draw(t, "three") {
-					c.Tr.Frame = -1
-				}
+			}
+			if rapid.IntRange(0, 2).Draw(t, "three") == 0 {
+				c.Tr.Frame = -1
 			}
 			n := rapid.IntRange(1, 4).Draw(t, "rows")
 			l := cliLen(t)
